@@ -1,5 +1,5 @@
 SPECIFICATION Spec
 CONSTANTS MaxLen = 5
 Alphabet <- Alpha8
-INVARIANTS NormalFormSafe NormalFormFixed IdentitySafe InsideProtected AsIsIndexSafe AsIsOKOutsideKnown FixedOK FixedIdem
+INVARIANTS NormalFormSafe NormalFormFixed IdentitySafe InsideProtected AsIsOK AsIsIdem OldIndexSafe OldWrongOnlyOnKnown
 CHECK_DEADLOCK FALSE
